@@ -42,6 +42,7 @@ type built struct {
 	secure   int
 	opts     plangen.Opts
 	isCheckA bool // obj is an action of a checks group
+	metaShape string
 }
 
 func allChecks(p *workflow.Plan) []*workflow.Checks {
@@ -141,6 +142,7 @@ func build(root *core.Rand, i int, set *hplug.Set, big bool) *built {
 		strict = 0.5
 	}
 	b.secure = c18x.AddSecure(r, b.plan, 0.35, strict, g.Nonce)
+	b.metaShape = c18x.Reshape(r, b.plan)
 	if b.stream == "irregular" {
 		b.did = c18x.Irregular(r, b.plan, i/5)
 	}
@@ -149,7 +151,7 @@ func build(root *core.Rand, i int, set *hplug.Set, big bool) *built {
 		// an empty, non-nil attempts slice somewhere
 		for _, s := range b.plan.Blocks {
 			if s != nil && len(s.Sequences) > 0 && s.Sequences[0] != nil && len(s.Sequences[0].Actions) > 0 && s.Sequences[0].Actions[0] != nil {
-				s.Sequences[0].Actions[0].Attempts = []*workflow.Attempt{}
+				s.Sequences[0].Actions[0].Attempts = make([]*workflow.Attempt, 0, r.Intn(2)*4)
 				b.did = append(b.did, "attempts=empty")
 				break
 			}
@@ -521,7 +523,7 @@ func main() {
 			Hash:       core.Hash(term),
 			Dist: map[string]any{"kind": b.kind, "mode": b.mode, "stream": b.stream, "irregular": b.did, "nodes": origNodes,
 				"actions": len(objActions(b.obj)), "secure_reqs": b.secure, "attempts": nAtt, "errors": nErr, "wrapped_errors": nWrapped,
-				"labels": lab.Count(), "scrub_entries": len(scrT)},
+				"labels": lab.Count(), "scrub_entries": len(scrT), "meta_shape": b.metaShape},
 			Input:    map[string]any{"seed": core.Seed(), "index": i, "opts": b.opts, "kind": b.kind, "mode": b.mode, "stream": b.stream, "irregular": b.did, "big": *big},
 			Observed: obsOuts,
 			Note:     strings.Join(notes, " | "),
